@@ -393,10 +393,36 @@ where
                 let mut rng = StdRng::seed_from_u64(seed ^ ((r * 131 + t) as u64).wrapping_mul(0x9e3779b97f4a7c15));
                 let mut connects = vec![];
                 barrier.wait();
+                // odd rounds are "churn" rounds: thread 0 is the ONLY mutator - it keeps creating a
+                // short-lived leaf, connects it to a shared node, disconnects it again and drops its
+                // last handle - while the other threads iterate / search the shared nodes in both
+                // directions (a neighbour may die, properly disconnected, while a reader walks the list)
+                let churn = r % 2 == 1;
                 let ok = catch_unwind(AssertUnwindSafe(|| {
-                    for _ in 0..calls {
+                    // churn rounds run longer: the window in which a neighbour dies under a reader is narrow
+                    for i in 0..(if churn { calls * 40 } else { calls }) {
                         let u = rng.gen_range(1..=nodes.len());
                         let v = rng.gen_range(1..=nodes.len());
+                        if churn {
+                            if t == 0 {
+                                let leaf = F::node(1000 + (i % 7) as K, 0);
+                                F::connect(&leaf, &nodes[u - 1], 1);
+                                if i % 3 == 0 {
+                                    F::connect(&nodes[v - 1], &leaf, 1);
+                                    let _ = F::disconnect(&nodes[v - 1], F::key(&leaf));
+                                }
+                                let _ = F::disconnect(&leaf, u as K);
+                                drop(leaf);
+                            } else {
+                                let mut k = 0;
+                                F::edge_loop(&nodes[u - 1], i % 2 == 0, &mut |_, _, _| k += 1);
+                                let q = Query { kind: if i % 4 < 2 { Kind::Bfs } else { Kind::Dfs }, entry: Entry::Search, target: Some(v as K),
+                                                transpose: F::DIRECTED && i % 2 == 0, meth: Meth::Plain, repeat: false, late: false };
+                                let _ = F::search(&nodes[u - 1], &q, &mut |_, _, _| true);
+                                F::plain_queries(&nodes[u - 1], v as K);
+                            }
+                            continue;
+                        }
                         match rng.gen_range(0..4) {
                             0 | 1 => {
                                 F::connect(&nodes[u - 1], &nodes[v - 1], 1);
@@ -441,7 +467,7 @@ where
         };
         performed.sort();
         let readable = fin.is_object();
-        writeln!(f, "{}", json!({"ev": "stress", "threads": threads, "calls_per_thread": calls, "hang": hang, "panic": panicked,
+        writeln!(f, "{}", json!({"ev": "stress", "churn": r % 2 == 1, "threads": threads, "calls_per_thread": calls, "hang": hang, "panic": panicked,
             "poisoned": fin == json!("poisoned"), "readable": readable,
             "final": if readable { fin } else { json!({"out": vec![Vec::<i64>::new(); n], "inn": vec![Vec::<i64>::new(); n]}) },
             "connects": performed})).unwrap();
